@@ -4,7 +4,7 @@
     [X fs k] is the k-th data sample of the (multi-file) stream, sample t channel c at index t*nchans + c. *)
 From Coq Require Import ZArith List Bool.
 Require Import SPP.Base.Rt SPP.Gen.Kernels SPP.Gen.Plan SPP.Gen.BaseSites SPP.Model.Stream SPP.Model.Plan SPP.Model.C06_pipe
-               SPP.Model.Bits SPP.Model.PlanPacked SPP.Proofs.C02_stream SPP.Proofs.C01_plan SPP.Proofs.C01_packed SPP.Proofs.C06_reduce.
+               SPP.Model.Bits SPP.Model.PlanPacked SPP.Proofs.C02_stream SPP.Proofs.C01_plan SPP.Proofs.C01_packed SPP.Proofs.C06_reduce SPP.Model.C10_moments SPP.Proofs.C07_transforms SPP.Proofs.C06_stats.
 Import ListNotations.
 Open Scope Z_scope.
 
@@ -53,6 +53,16 @@ Print Assumptions C06_dedisperse_len.
 Theorem C06_stats_divisor : forall N start nsamps, stats_divisor N start nsamps 0 = nsamps /\ stats_divisor N start nsamps 1 = N - start.
 Proof. intros; split; reflexivity. Qed.
 Print Assumptions C06_stats_divisor.
+
+(** compute_stats(_basic): for every gulp the accumulator of channel c satisfies the C10 invariant (count, mean and central sums
+    in closed form, min, max) of exactly the selected samples of that channel; with C10's theorems these are the two-pass moments *)
+Theorem C06_stats : forall fs nch N gulp start nsamps c full,
+  1 <= nfiles fs -> 1 <= nch -> SPP.Model.Stream.total fs = N * nch -> 0 <= start -> 1 <= nsamps -> start + nsamps <= N -> 1 <= gulp ->
+  0 <= c < nch -> nsamps < 2 ^ 31 ->
+  exists s, stats_pipe fs nch gulp start nsamps full c = Some s /\
+    inv full (column fs nch start nsamps c) s /\ inv_minmax (column fs nch start nsamps c) s.
+Proof. exact stats_spec. Qed.
+Print Assumptions C06_stats.
 
 (** changing only the gulp never changes the result *)
 Corollary C06_gulp_irrelevant_collapse : forall fs nch N g1 g2 start nsamps,
